@@ -223,6 +223,11 @@ def prop_spec(draw, name, text_classes=None, tuples=True, attr_text=None, falsy=
     dtype = draw(dtypes(tuples))
     n = draw(st.sampled_from([0, 1, 1, 2, 3, max_values]))
     values = draw(st.lists(value_strategy(dtype, text_classes), min_size=n, max_size=n))
+    if (text_classes is None or "bracket" in text_classes) and draw(st.integers(0, 11)) == 0:
+        # a single text value that looks like a list (also: only after trimming) is the one shape the
+        # XML value syntax has to escape - too rare to be left to chance
+        dtype = draw(st.sampled_from(["string", "text"]))
+        values = [draw(TEXT_CLASSES["bracket"])]
     if dtype == "string" and any(isinstance(v, str) and "\n" in v for v in values[:1]):
         # a first value with a newline makes infer_dtype say 'text' - keep dtype explicit anyway
         pass
@@ -337,6 +342,21 @@ def add_links(spec, picks):
         elif s is not t and not tpath.startswith(spath + "/") and not spath.startswith(tpath + "/") \
                 and all(c not in tpath for c in "#") and "/" not in t["name"]:
             s["link"] = tpath
+    return spec
+
+
+def inject_nan(spec, picks):
+    """Give some float Properties a NaN value and some Properties a NaN uncertainty (NaN is a float
+    like any other to the library, but it is not equal to itself).  ``picks``: list of [i, what]."""
+    props = list(iter_props(spec))
+    if not props:
+        return spec
+    for i, what in picks:
+        p = props[i % len(props)]
+        if what == "uncertainty":
+            p["uncertainty"] = float("nan")
+        elif p["dtype"] == "float":
+            p["values"] = list(p["values"]) + [float("nan")]
     return spec
 
 
